@@ -1108,6 +1108,154 @@ def required_cells():
     return req
 
 
+# --------------------------------------------------------------------------------------------------
+# data tie (`dump=1` / `data=…`): the limbs of the destination after every call of the linear fragment,
+# harness (real library on pseudo-random balanced digits) against Model/CkksData.lean, bit for bit
+LIN_KINDS = [("add", 8), ("sub", 8), ("add_assign", 6), ("sub_assign", 6), ("neg", 4), ("neg_assign", 2),
+             ("mul_pow2", 4), ("mul_pow2_assign", 3), ("div_pow2", 4), ("div_pow2_assign", 2),
+             ("rescale", 6), ("rescale_assign", 4), ("align", 3)]
+
+
+def data_programs(rng, count, max_steps):
+    lines = []
+    for p in range(count):
+        be, q0 = BACKENDS[p % 4]
+        q = q0 if rng.chance(1, 2) else rng.choice([52, 30, 19] if be.startswith("ntt") else [17, 19, 12])
+        n = 16 if p % 3 else 32
+        np_ = rng.range(3, 5)
+        pool = []
+        for _ in range(np_):
+            size = rng.range(1, 5)
+            cap = size * q
+            d = rng.range(2, min(40, cap))
+            b = rng.range(0, cap - d)
+            if rng.chance(1, 3):
+                b = cap - d                                        # full ciphertext
+            pool.append((size, d, b))
+        sim = Sim(q, [], 53, pool)
+        ops = []
+        for _ in range(rng.range(4, max_steps)):
+            for _try in range(8):
+                tot = sum(w for _, w in LIN_KINDS)
+                x = rng.below(tot)
+                for name, w in LIN_KINDS:
+                    if x < w:
+                        break
+                    x -= w
+                d = rng.below(np_)
+                others = [i for i in range(np_) if i != d]
+                a = rng.choice(others)
+                b = rng.choice(others)
+                cd = sim.pool[d]
+                ca = sim.pool[a]
+                bits = rng.choice([0, 1, 3, rng.range(0, 2 * q)])
+                if name in ("add", "sub"):
+                    c = [name, d, a, b]
+                elif name in ("add_assign", "sub_assign", "neg", "align"):
+                    c = [name, d, a]
+                elif name == "neg_assign":
+                    c = [name, d]
+                elif name in ("mul_pow2", "div_pow2"):
+                    c = [name, d, a, bits]
+                elif name in ("mul_pow2_assign", "div_pow2_assign"):
+                    c = [name, d, bits]
+                elif name == "rescale":
+                    c = [name, d, rng.range(0, ca.b + (1 if rng.chance(1, 8) else 0)), a]
+                else:
+                    c = [name, d, rng.range(0, cd.b + (1 if rng.chance(1, 8) else 0))]
+                trial = Sim(q, [], 53, [(x_.size, x_.d, x_.b) for x_ in sim.pool])
+                out, _ = trial.step([str(x_) for x_ in c])
+                if out.startswith("ok") or rng.chance(1, 6):
+                    break
+            toks = [str(x_) for x_ in c]
+            sim.step(toks)
+            ops.append(",".join(toks))
+        ps = "/".join(f"{s_}:{d_}:{b_}" for (s_, d_, b_) in pool)
+        lines.append(f"be={be} n={n} base2k={q} maxprec=53 keys=- pool={ps} dump=1 seed={p + 1} ops=" + ";".join(ops))
+    return lines
+
+
+def run_data(ctx, binp, drv, lines):
+    """harness first (it draws the initial limbs), then the model on the same limbs"""
+    ids = [f"{k} ckks {l}" for k, l in enumerate(lines)]
+    rc2, iout, e2 = ctx.run_lines(binp, ["ckks"], ids, timeout=3000)
+    impl = {}
+    for l in iout:
+        t = l.split()
+        if len(t) >= 2:
+            impl[int(t[0])] = t[1].split("|")
+    mids = []
+    for k, l in enumerate(lines):
+        st = impl.get(k, ["?"])
+        init = st[0][5:] if st and st[0].startswith("init#") else ""
+        mids.append(f"{k} ckks {l} data={init}")
+    rc1, mout, e1 = ctx.run_lines(drv, [], mids)
+    model = {}
+    for l in mout:
+        t = l.split()
+        if len(t) >= 2:
+            model[int(t[0])] = t[1].split("|")
+    return [(model.get(k, ["?"]), impl.get(k, ["?"])[1:]) for k in range(len(lines))]
+
+
+def data_cell(q, prev, op, got):
+    """(operation, outcome, alignment branch, an operand longer than the destination?) of one call;
+    `prev` = `delta.budget.size` of every slot before the call"""
+    f = op.split(",")
+    name = f[0]
+    kind = got.split("@")[0].split("#")[0].split(":")[0]
+    try:
+        st = [tuple(int(x) for x in e.split(".")) for e in prev]
+        if name in ("add", "sub"):
+            d, a, b = (st[int(x)] for x in f[1:4])
+            off = max(0, min(a[0] + a[1], b[0] + b[1]) - d[2] * q)
+            br = "exact" if off == 0 and a[1] == b[1] else ("a<=b" if a[1] <= b[1] else "a>b")
+            return (name, kind, br, off > 0, max(a[2], b[2]) > d[2])
+        if name in ("add_assign", "sub_assign"):
+            d, a = (st[int(x)] for x in f[1:3])
+            br = "d<a" if d[1] < a[1] else ("d>a" if d[1] > a[1] else "d=a")
+            return (name, kind, br, False, a[2] > d[2])
+        if name in ("neg", "mul_pow2", "div_pow2"):
+            d, a = (st[int(x)] for x in f[1:3])
+            off = max(0, a[0] + a[1] - d[2] * q)
+            return (name, kind, "-", off > 0, a[2] > d[2])
+        if name == "rescale":
+            d, a = st[int(f[1])], st[int(f[3])]
+            return (name, kind, "-", a[0] + a[1] - int(f[2]) > d[2] * q, a[2] > d[2])
+        if name == "align":
+            a, b = (st[int(x)] for x in f[1:3])
+            return (name, kind, "a<b" if a[1] < b[1] else "a>=b", False, False)
+    except (ValueError, IndexError):
+        pass
+    return (name, kind, "-", False, False)
+
+
+def data_scenarios():
+    """fixed programs for the branches the random stream reaches rarely: `Err` of add/sub into a narrow destination (the
+    destination keeps the un-normalised aligned sum), the exact branch with operands longer than the destination, the
+    three branches of the in-place forms with a longer operand, shifts that drop limbs"""
+    out = []
+    k = 0
+    for be, q0 in BACKENDS:
+        for q in ([52, 19] if be.startswith("ntt") else [17, 12]):
+            progs = [
+                # err: offset 33.. > min budget
+                (f"3:{2*q}:10/3:{2*q}:12/1:0:0/2:0:0", "add,2,0,1;sub,2,0,1;add,2,1,0;sub,3,1,0;add,3,0,0"),
+                # exact branch, three limbs into two
+                (f"3:{q//2}:{q}/3:{q//2+1}:{q}/2:0:0", "add,2,0,1;sub,2,1,0;neg,2,0;mul_pow2,2,1,0;add_assign,2,0;sub_assign,2,1"),
+                # in-place forms: d<a, d>a, d=a with a longer operand
+                (f"2:{q//2}:{q//2}/3:{q//2}:{q+3}/3:{q//2}:{q//2}/3:{q//2}:3", "add_assign,0,1;sub_assign,0,2;add_assign,0,3;sub_assign,0,1;sub_assign,0,3;add_assign,0,2"),
+                # unary into a narrower destination, rescale paying the offset, division
+                (f"4:{q}:{2*q+5}/2:0:0/1:0:0", f"neg,1,0;mul_pow2,1,0,{q+3};div_pow2,1,0,7;rescale,1,{q+1},0;rescale,2,{q},0;neg,2,0;div_pow2,2,0,{2*q}"),
+                # align both ways, then add / sub on aligned operands
+                (f"3:{q//2}:{q+9}/3:{q//2}:{q}/3:0:0", "align,0,1;add,2,0,1;align,1,0;rescale_assign,1,4;align,0,1;sub,2,0,1"),
+            ]
+            for pool, ops in progs:
+                k += 1
+                out.append(f"be={be} n=16 base2k={q} maxprec=53 keys=- pool={pool} dump=1 seed={1000 + k} ops={ops}")
+    return out
+
+
 def run(ctx):
     rng = ctx.rng
     quick = ctx.tier == "quick"
@@ -1136,6 +1284,7 @@ def run(ctx):
     findings = {}          # key -> (line, description)
     unknown = []           # (line, description)
     disagree = []
+    disagree_data = []
 
     def judge(lines, tag):
         res = run_both(ctx, binp, drv, lines)
@@ -1235,7 +1384,8 @@ def run(ctx):
             q = r2.choice([52, 17, 19])
             d = r2.range(4, 53)
             b = r2.range(0, 12)
-            mag = r2.choice([1.0, 0.5, 2.0 ** max(0, b - 2), 2.0 ** max(0, b - 1) * 0.69])   # 0.69 ≈ 0.98/√2: slot bound → coefficient bound
+            cap = 2.0 ** (b - 1) * 0.69          # 0.69 ≈ 0.98/√2: slot bound → coefficient bound; a plaintext of log_budget b holds |coefficient| < 2^(b-1)
+            mag = r2.choice([m_ for m_ in [1.0, 0.5, 2.0 ** max(0, b - 2), cap] if m_ <= cap] or [cap])
             fl = "f128" if k % 4 == 3 else "f64"
             if fl == "f128":
                 d = r2.range(4, 113)
@@ -1263,6 +1413,33 @@ def run(ctx):
                 unknown.append((req, 0, "roundtrip did not return ok: " + l))
         ctx.cov["roundtrip"] = {"cases": len(rt), "worst_encoder_log2_rel": worst_enc, "worst_quantised_log2_times_delta": worst_full, "bad": rt_bad}
 
+        # ---- data tie: limbs after every call of the linear fragment (Model/CkksData.lean, Props/C16 §8)
+        dl = data_scenarios() + data_programs(rng.fork(), 60 if quick else 4000, 10 if quick else 14)
+        dstat = {"programs": len(dl), "calls": 0, "ok": 0, "err": 0, "limbs_compared": 0, "mismatch": 0}
+        dcells = {}
+        for off in range(0, len(dl), 500):
+            chunk = dl[off:off + 500]
+            for line, (m, i) in zip(chunk, run_data(ctx, binp, drv, chunk)):
+                kv, keys, pool, ops = parse_header(line)
+                k = first_diff(m, i)
+                prev = [f"{d_}.{b_}.{s0}" for (s0, d_, b_) in pool]
+                for s_, (op, got) in enumerate(zip(ops, i)):
+                    dstat["calls"] += 1
+                    dstat["ok"] += int(got.startswith("ok"))
+                    dstat["err"] += int(got.startswith("err"))
+                    dstat["limbs_compared"] += got.count(".") + 1 if "#" in got else 0
+                    cell = data_cell(int(kv["base2k"]), prev, op, got)
+                    dcells[cell] = dcells.get(cell, 0) + 1
+                    ctx.count_case(("data", kv["be"], kv["n"], kv["base2k"]) + cell, nontrivial=True)
+                    if "@" in got:
+                        prev = got.split("@")[1].split("#")[0].split("/")
+                if k is not None:
+                    dstat["mismatch"] += 1
+                    ctx.disagreements += 1
+                    disagree_data.append((line, k, m[k] if k < len(m) else "-", i[k] if k < len(i) else "-"))
+        dstat["cells"] = {f"{a}:{b}:{c}:off>0={int(d)}:longer={int(e_)}": v for (a, b, c, d, e_), v in sorted(dcells.items())}
+        ctx.cov["data_tie"] = dstat
+
     # ---- reporting
     ctx.cov["cells_op_offset_budgetrel"] = {f"{n}|off>0={int(o)}|{r}": v for (n, o, r), v in sorted(cells.items())}
     empty = [f"{n}|off>0={int(o)}|{r}" for (n, o, r) in required_cells() if cells.get((n, o, r), 0) == 0]
@@ -1286,6 +1463,11 @@ def run(ctx):
         orc = oracle(line, res[1])
         ctx.violation("model and implementation disagree", {"program": line, "model": res[0], "implementation": res[1],
                       "oracle": [w for (_, _, w) in orc], "n_disagreeing_programs": len(disagree)}, bool(orc))
+    if disagree_data:
+        line, k, mv, iv = disagree_data[0]
+        ctx.violation("data path: model and implementation limbs differ", {"program": line, "step": k, "model": mv[:400], "implementation": iv[:400],
+                      "n_disagreeing_programs": len(disagree_data),
+                      "rerun": f"echo '0 ckks {line}' | harness/target/ovf/pvh ckks"}, False)
     if unknown:
         line, s, what = unknown[0]
         if not line.split()[0].isdigit() and binp is not None and drv is not None:
